@@ -403,6 +403,20 @@ def r_map_shape(e, R):
             e.loc(mp_, mp_.node))
     if not (okp and len(runner) == 1 and okc and chain):
         return
+    # --- the iterables are consumed through ONE zip iterator (builtin map draws one item from each iterable per call);
+    # slicing each iterable on its own draws chunksize items from the first, then from the next: iterables that share state
+    # (the same iterator passed twice, generators over one source) are paired differently from builtin map
+    cf0 = e.prog.funcs[next(iter(chunker))]
+    zips0 = [n for n in func_nodes(cf0) if isinstance(n, ast.Call) and norm(n.func) == "zip" and len(n.args) == 1 and isinstance(n.args[0], ast.Starred)
+             and isinstance(n.args[0].value, ast.Name) and n.args[0].value.id == (cf0.vararg or "")]
+    if not zips0:
+        isl0 = [c for c in func_nodes(cf0) if isinstance(c, ast.Call) and norm(c.func).endswith("islice")]
+        per_iter = [c for c in isl0 if c.args and isinstance(c.args[0], ast.Name) and c.args[0].id != (cf0.vararg or "")]
+        if per_iter:
+            R.fail("R-MAP-SHAPE", cf0.short, norm(per_iter[0])[:70], "the chunker slices each iterable separately instead of slicing one zip(*iterables) iterator: "
+                   "items are drawn chunksize at a time from each iterable in turn, not one from each per call as builtin map does; iterables that share "
+                   "state are paired differently (and the result depends on chunksize)", e.loc(cf0, per_iter[0]))
+            return
     # --- chunk runner: one fn(*args) per element of the chunk, in order, nothing filtered
     rf = e.prog.funcs[next(iter(runner))]
     fnp, chp = rf.params[0], rf.params[1]
